@@ -50,7 +50,8 @@ def check_remove_quotes(ctx):
     loc = f'{f.mod.relpath}:{f.node.lineno}'
     ev = ME.Evaluator(ctx, f.mod)
     # evaluate the (pure string) function abstractly on representative quoted/unquoted names -- table agreement on constants
-    cases = [('"a b"', 'a b'), ('`a`', 'a'), ('ab', 'ab'), ('"a', '"a'), ('a"', 'a"'), ('"a`', '"a`'), ('`x"y`', 'x"y')]
+    cases = [('"a b"', 'a b'), ('`a`', 'a'), ('ab', 'ab'), ('"a', '"a'), ('a"', 'a"'), ('"a`', '"a`'), ('`x"y`', 'x"y'),
+             ('"a\nb"', 'a\nb'), ('"A b.c"', 'A b.c'), ('"a""b"', 'a""b'), ('`a\r\nb`', 'a\r\nb'), ('"\u2028"', '\u2028')]
     import copy
     for inp, want in cases:
         try:
@@ -124,6 +125,40 @@ def run_strfunc(ev, fnode, env):
             return getattr(e(n.func.value, env), n.func.attr)(*[e(a, env) for a in n.args])
         if isinstance(n, ast.Call) and is_name(n.func, 'len'):
             return len(e(n.args[0], env))
+        if isinstance(n, ast.IfExp):
+            return e(n.body if e(n.test, env) else n.orelse, env)
+        if isinstance(n, ast.Attribute):
+            try:
+                return ev.folder.eval(n, ev.mod)
+            except Exception:
+                raise ME.Unsupported(src(n))
+        if isinstance(n, ast.Call) and isinstance(n.func, ast.Attribute) and n.func.attr in ('match', 'search', 'fullmatch', 'sub'):
+            # a regex constant of the source applied to a string constant (table agreement)
+            import re as _re
+            from ..fold import Rx
+            args = [e(a, env) for a in n.args]
+            if src(n.func.value) == 're' and args and isinstance(args[0], str):
+                flags = args[3] if n.func.attr == 'sub' and len(args) > 3 else args[2] if n.func.attr != 'sub' and len(args) > 2 else 0
+                for k in n.keywords:
+                    if k.arg == 'flags':
+                        flags = ev.folder._flags(k.value, ev.mod)
+                rx_, rest = _re.compile(args[0], flags), args[1:3] if n.func.attr == 'sub' else args[1:2]
+            else:
+                base = e(n.func.value, env)
+                if not isinstance(base, Rx):
+                    raise ME.Unsupported(src(n))
+                rx_, rest = _re.compile(base.pattern, base.flags), args
+            if not all(isinstance(a, str) for a in rest):
+                raise ME.Unsupported(src(n))
+            return getattr(rx_, n.func.attr)(*rest)
+        if isinstance(n, ast.Call) and isinstance(n.func, ast.Attribute) and n.func.attr in ('group', 'groups', 'start', 'end'):
+            import re as _re
+            base = e(n.func.value, env)
+            if base is None:
+                raise ME.Crash(f'.{n.func.attr} of None')
+            if not isinstance(base, _re.Match):
+                raise ME.Unsupported(src(n))
+            return getattr(base, n.func.attr)(*[e(a, env) for a in n.args])
         raise ME.Unsupported(src(n))
 
     def block(stmts, env):
